@@ -259,6 +259,11 @@ SYSTEMATIC = [
     "def f(o):\n    x = o.c(a=o(1) or o(2))\n    return x\n",
     "def f(o):\n    x = [o(1) and o(2)][0]\n    return x\n",
     "def f(o):\n    x = 1 if (o(1) and o(2)) else 2\n    return x\n",
+    "def f(o):\n    x = 0\n    while o(1):\n        if o(2):\n            x += 1\n        elif o(3):\n            x += 2\n        else:\n            x += 4\n            return x\n        x += 10\n    return x\n",
+    "def f(o):\n    x = 0\n    while o(1):\n        x += 1\n        if o(2):\n            x += 2\n            break\n        x += 3\n    x += 100\n    return x\n",
+    "def f(o):\n    x = 0\n    y = 0\n    while o(1):\n        x += 1\n        while o(2):\n            y += 1\n            if o(3):\n                y += 10\n                break\n        else:\n            x += 5\n    else:\n        y += 100\n    return (x, y)\n",
+    "def f(o):\n    x = 0\n    if o(1):\n        x += 1\n        if o(2):\n            x += 2\n            return x\n        x += 3\n    else:\n        x += 4\n    x += 5\n    return x\n",
+    "def f(o):\n    x = 0\n    for j in o.it(1):\n        x += j\n        if o(2):\n            x += 10\n            continue\n        x += 100\n        if o(3):\n            x += 1000\n            break\n    else:\n        x += 7\n    return x\n",
     "def f(o):\n    pass\n",
     "def f(o):\n    x = o(1)\n",
     "def f(o):\n    while o(1):\n        pass\n    return 1\n",
@@ -268,7 +273,7 @@ SYSTEMATIC = [
 def programs(tier, seed):
     out = list(SYSTEMATIC)
     rng = random.Random(seed)
-    n = 250 if tier == 'quick' else 3000
+    n = 1000 if tier == 'quick' else 4000
     for i in range(n):
         g = Gen(rng, depth=2 if (tier == 'quick' or i % 3) else 3, clean=(i % 5 != 0))
         out.append(g.program())
